@@ -21,6 +21,7 @@ and the representation invariant `Good s`:
 
 Copies: `copies_bind_by_name` (any interleaving of assignments to several live instances and `copy.deepcopy`),
 `restore_preserves_abs`, `setstate_rebuild_counterexample`.
+Value coincidences: `early_exit_input_order_counterexample`.
 -/
 import Pygom.Lemmas.Params
 
@@ -766,6 +767,29 @@ theorem setstate_rebuild_counterexample :
     ∧ (mspecRun params [fun _ => 0] ops).map (fun f => params.map f) = [[5, 7], [5, 7]] := by
   decide
 
+
+/-- **a "nothing changed" early exit that compares the new values in INPUT order with `_paramValue`** (which is in declared
+order; `Params.stepEarlyExit`): the model holds beta=4, gamma=2, mu=1; the pair list `[(gamma,4), (beta,2), (mu,1)]` reads
+`4, 2, 1` in the order it is written, "equals" `_paramValue` and is dropped - the setter as written (and the spec) bind
+beta=2, gamma=4.  Second history: pairs written in reverse order fill the map as (mu, gamma, beta); the partial dict
+`{mu: 4, beta: 1}` then makes the map read `4, 2, 1` in insertion order and is dropped as well.  The binding theorems hold
+for EVERY value because the unroll is by name and unconditional; the harness probes the real setter with such coincidences
+(`coincide:*` cases of harness/props/c09.py). -/
+theorem early_exit_input_order_counterexample :
+    let params := ["beta", "gamma", "mu"]
+    let s0 := run true (init (V := Int) params) [.nums [4, 2, 1]]
+    let op : Op Int := .pairs [(.str "gamma", 4), (.str "beta", 2), (.str "mu", 1)]
+    let s1 := run true (init (V := Int) params) [.pairs [(.str "mu", 1), (.str "gamma", 2), (.str "beta", 4)]]
+    let op1 : Op Int := .dict [(.str "mu", some 4), (.str "beta", some 1)]
+    (step true s0 op).1.pv = [2, 4, 1]
+    ∧ params.map (specRun params (fun _ => 0) [.nums [4, 2, 1], op]) = [2, 4, 1]
+    ∧ (stepEarlyExit s0 op).1.pv = [4, 2, 1]
+    ∧ s1.pv = [4, 2, 1]
+    ∧ (step true s1 op1).1.pv = [1, 2, 4]
+    ∧ (stepEarlyExit s1 op1).1.pv = [4, 2, 1]
+    -- an assignment whose values differ from the held ones in input order takes the ordinary path
+    ∧ (stepEarlyExit s0 (.pairs [(.str "gamma", 7), (.str "beta", 2), (.str "mu", 1)])).1.pv = [2, 7, 1] := by
+  decide
 
 /-! ## the code as written is not atomic: counterexamples (values in `Int`, by evaluation) -/
 
